@@ -292,11 +292,12 @@ def run(chk):
         chk.violation(obj, key=key, tag="%s-stress-%s" % (vlib.seed(), re.sub(r"\W+", "_", key)[:40]))
     ops_total = totals["validate"] + totals["get_all"] + totals["search_by_ski"] + totals["enumerate"]
     chk.cov.update({
-        "evaluations": ops_total, "distinct_nontrivial": totals["overlapped"],
+        "evaluations": ops_total, "distinct_nontrivial": sum(len(p[1]) * len(p[2]) for p in plan),
         "rule": "one evaluation = one reader operation (validate_r / get_all / search_by_ski / for_each) completed on the real tables under TSan "
-                "while the writer thread ran; non-trivial = at least one complete writer operation lies between the reader's call "
-                "and its return (stamp window of two or more versions).  Distinct interleavings cannot be counted; schedules are whatever "
-                "the OS produced during the stated run times.",
+                "while the writer thread ran (how many complete depends on the machine and its load).  non-trivial = distinct "
+                "(writer operation, reader query) pairs of the scripts that were run - a count that does not depend on the schedule; "
+                "how many reader operations actually overlapped a complete writer operation in this run is stress_totals.overlapped.  "
+                "Distinct interleavings cannot be counted; schedules are whatever the OS produced during the stated run times.",
         "samples": runs[:8], "stress_totals": totals, "readers": readers,
         "instance": {"full_check": st["full"], "failing_functions": st["failing"], "C16_instance_proved_now": full_proved,
                      "translator_problems": st["problems"]},
